@@ -427,31 +427,30 @@ def decodeCacheConfig : Tree → Option (List SC)
   | _ => none
 
 /-- the loop of ParseStorageConfigs (caching.go:576-591). An entry without path or id is
-    skipped; an entry that shares its path or id with an entry ALREADY TAKEN panics — before its
-    own size is looked at; an entry whose size does not parse is dropped. -/
-def storageLoop : List SC → List StorageCfg → Res (List StorageCfg)
-  | [], configs => .ok configs
+    skipped; an entry that shares its path or id with an entry ALREADY TAKEN ends the loop with
+    an error (`none`; a `panic` before the fix for finding C19-b) — before its own size is looked
+    at; an entry whose size does not parse is dropped. -/
+def storageLoop : List SC → List StorageCfg → Option (List StorageCfg)
+  | [], configs => some configs
   | s :: rest, configs =>
     if s.path.length = 0 ∨ s.id.length = 0 then storageLoop rest configs
     else if configs.any (fun c => c.path = s.path ∨ c.id = s.id) then
-      .panic "ParseStorageConfigs: Two storages share the same path or id"
+      none                                   -- "two storages share the same path or id"
     else
       match datasizeParse s.size with
       | some v => storageLoop rest (configs ++ [{ size := v, path := s.path, id := s.id }])
       | none => storageLoop rest configs
 
-/-- `ParseStorageConfigs` (caching.go:564-594): `.ok none` = returned an error,
-    `.panic` = the explicit `panic` on a duplicate -/
-def parseStorageConfigs (d : Doc) : Res (Option (List StorageCfg)) :=
+/-- `ParseStorageConfigs` (caching.go:564-594): `none` = returned an error (the text does not
+    parse, the typed decode rejects the cache section, or an id / a path is listed twice).
+    The function has no panic site. -/
+def parseStorageConfigs (d : Doc) : Option (List StorageCfg) :=
   match d.source with
-  | none => .ok none
+  | none => none
   | some t =>
     match decodeCacheConfig t with
-    | none => .ok none
-    | some scs =>
-      match storageLoop scs [] with
-      | .panic s => .panic s
-      | .ok cfgs => .ok (some cfgs)
+    | none => none
+    | some scs => storageLoop scs []
 
 /-- a live `storage` as far as the configuration is concerned (disk.go:259-275) -/
 structure Storage where
@@ -496,15 +495,14 @@ structure State where
   checksum : Nat
   deriving Repr
 
-/-- `StartCmd.Run` (main.go:77-104): any error or panic refuses to start (`none`) -/
+/-- `StartCmd.Run` (main.go:77-104): any error refuses to start (`none`) -/
 def start (sum : Nat) (d : Doc) : Option State :=
   match parseRules d with
   | .error _ => none
   | .ok rules =>
     match parseStorageConfigs d with
-    | .panic _ => none
-    | .ok none => none
-    | .ok (some cfgs) => some { rules := rules, storages := cfgs.map Storage.ofCfg, checksum := sum }
+    | none => none
+    | some cfgs => some { rules := rules, storages := cfgs.map Storage.ofCfg, checksum := sum }
 
 /-- what `readMapping` delivered on one wake-up of the reloader -/
 inductive Fetch where
@@ -518,23 +516,23 @@ inductive StepEnd where
   deriving DecidableEq, Repr
 
 /-- the body of the `configReloader` loop, in the order of the source (main.go:121-144):
-    readMapping · checksum compare · ParseRules · **SetRules** · ParseStorageConfigs ·
-    SetStorageConfigs · checksum store. `Res.panic` = the reloader goroutine panics, which
-    nothing recovers: the process dies. -/
-def step (s : State) : Fetch → Res (State × StepEnd)
-  | .error => .ok (s, .fetchError)
+    readMapping · checksum compare · ParseRules · ParseStorageConfigs · **SetRules** ·
+    SetStorageConfigs · checksum store: both sections are parsed and validated before either is
+    applied (fix for finding C19-a). None of the modelled calls can panic any more (fix for
+    finding C19-b), so the step is a total function on states. -/
+def step (s : State) : Fetch → State × StepEnd
+  | .error => (s, .fetchError)
   | .doc sum d =>
-    if s.checksum = sum then .ok (s, .unchanged)
+    if s.checksum = sum then (s, .unchanged)
     else
       match parseRules d with
-      | .error _ => .ok (s, .rulesRejected)
+      | .error _ => (s, .rulesRejected)
       | .ok rules =>
-        let s1 := { s with rules := rules }                          -- router.SetRules(rules)
         match parseStorageConfigs d with
-        | .panic site => .panic site
-        | .ok none => .ok (s1, .storagesRejected)
-        | .ok (some cfgs) =>
-          .ok ({ s1 with storages := setStorageConfigs s1.storages cfgs, checksum := sum }, .loaded)
+        | none => (s, .storagesRejected)
+        | some cfgs =>
+          let s1 := { s with rules := rules }                        -- router.SetRules(rules)
+          ({ s1 with storages := setStorageConfigs s1.storages cfgs, checksum := sum }, .loaded)
 
 /-- the statements of the loop body that `step` mirrors, normalised as the extractor prints
     them (pinned against `Facts.reloadSteps` through `Spec.reloadSteps`) -/
@@ -546,9 +544,9 @@ def reloadProtocol : List Bytes := [
   b!"if (gMappingChecksum==mc) {continue}",
   b!"rules,err:=proxy.ParseRules(mappingData,logger)",
   b!"if (err!=nil) {logger.Errorf(...);continue}",
-  b!"router.SetRules(rules)",
   b!"cfgs,err:=caching.ParseStorageConfigs(mappingData)",
   b!"if (err!=nil) {logger.Errorf(...);continue}",
+  b!"router.SetRules(rules)",
   b!"cache.SetStorageConfigs(cfgs)",
   b!"gMappingChecksum=util.SHA1String(mappingData)",
   b!"logger.Infof(...)" ]
@@ -632,8 +630,10 @@ def ruleSite (routingSecrets : Option (List Bytes)) (rs : List Rule) (req : Req)
     | none => .ok ()
     | some r => internalSite routingSecrets r.internal req
 
-/-- the modelled request path of one request: `destinationString` (DropPort on the Host),
-    the rule loop, and the internal-header step for the chosen copy and proxy rules.
+/-- the modelled request path of one request: `destinationString` (DropPort on the Host; it
+    cannot panic since the fix for finding C05-b, the branch is kept because `dropPort` still
+    returns a `Res`), the rule loop, and the internal-header step for the chosen copy and proxy
+    rules.
     `reparse` stands for the `url.URL.String()` / `url.Parse` round trip between the first
     two (net/url; not modelled here, see C02): `none` = `url.Parse` returned an error, which
     `Rules.Match` hands back — nothing is routed. -/
